@@ -85,6 +85,7 @@ FullSyncMove<SlotType, BUFFER_SIZE> {
     fn publish_movable(&self, item: SlotType) -> (Option<NonZeroU32>, Option<SlotType>) {
         match self.leak_slot_internal(|| false) {
             Some( (slot, _slot_id, len_before) ) => {
+                #[cfg(feature = "verif")] crate::verif::yield_point("ring.slot_write");
                 unsafe { ptr::write(slot, item); }
                 self.publish_leaked_internal();
                 (NonZeroU32::new(len_before+1), None)
@@ -104,6 +105,7 @@ FullSyncMove<SlotType, BUFFER_SIZE> {
 
         match self.leak_slot_internal(report_full_fn) {
             Some( (slot_ref, _slot_id, len_before) ) => {
+                #[cfg(feature = "verif")] crate::verif::yield_point("ring.slot_write");
                 setter_fn(slot_ref);
                 self.publish_leaked_internal();
                 report_len_after_enqueueing_fn(len_before+1);
@@ -148,6 +150,7 @@ FullSyncMove<SlotType, BUFFER_SIZE> {
     fn consume_movable(&self) -> Option<SlotType> {
         match self.consume_leaking_internal(|| false) {
             Some( (slot_ref, _len_before) ) => {
+                #[cfg(feature = "verif")] crate::verif::yield_point("ring.slot_read");
                 let item = unsafe { Some(ptr::read(slot_ref)) };
                 self.release_leaked_internal();
                 ogre_sync::unlock(&self.concurrency_guard);
